@@ -100,6 +100,11 @@ var quickTimed = []catFam{
 	{`(a+)+$`, 0, lit("aaaa"), "quick"},
 	{`foo(bar)?`, oI, lit("xx FOOBAR yy"), "quick"},
 	{`(?<=x)y`, 0, lit("aaxyb"), "quick"},
+	// several matches: the scans that continue after the first match are timed, too
+	{`\d+`, 0, lit("1 22 333 4 55 666 7 88 999 0"), "quick-multi"},
+	{`(\w+)\s(\w+)`, 0, lit("aa bb cc dd ee ff gg hh"), "quick-multi"},
+	{`[a-z]`, oI, lit("aBcDeFgHiJkLmN"), "quick-multi"},
+	{`x*`, 0, lit("xxaxxbxx"), "quick-multi"},
 }
 
 // Replacement strings: more than any per-Regexp cache size used.
